@@ -14,6 +14,7 @@ package server
 
 import (
 	"bytes"
+	"context"
 	"encoding/hex"
 	"fmt"
 	"net/netip"
@@ -420,6 +421,10 @@ type c09fObs struct {
 	StoredAttr string
 	Panic      string
 	SetupFail  string
+	// after a soft reset (in) of the source, for routes that must not be used
+	SoftInRan    bool
+	SoftInLocRib bool
+	SoftInSent   []string
 }
 
 // c09fRun executes one case in a fresh bubble.
@@ -561,6 +566,29 @@ func c09fRun(t *testing.T, c c09fCase) (o c09fObs) {
 				}
 			}
 		}
+		// "are not used" is not a property of the moment of arrival: re-evaluating what the source sent
+		// (soft reset in) must not bring a route in that the loop checks refused
+		if used, _ := c09fUsed(c); used == c09fMustNot && c.Src > 0 && !o.InLocRib {
+			src := w.bots[c.Src-1]
+			if err := w.s.ResetPeer(context.Background(), &api.ResetPeerRequest{Address: src.addr().String(), Soft: true,
+				Direction: api.ResetPeerRequest_DIRECTION_IN}); err != nil {
+				o.SetupFail = "soft reset in: " + err.Error()
+				return
+			}
+			w.settle()
+			w.advance(time.Second)
+			o.SoftInRan = true
+			o.SoftInLocRib = len(c09fRibPaths(rib, c09fPrefix)) > 0
+			for i, b := range w.bots {
+				view := map[string]string{}
+				for _, rx := range b.takeGroup() {
+					simFold(view, rx.Msg)
+				}
+				if _, ann := view[simRouteKey(bgp.RF_IPv4_UC, nlri, 0)]; ann {
+					o.SoftInSent = append(o.SoftInSent, wd.Peers[i+1].Name)
+				}
+			}
+		}
 	})
 	return o
 }
@@ -676,6 +704,12 @@ func c09fJudge(r *vr.Report, c c09fCase, o c09fObs) {
 			if cls == "local-cluster-id-in-cluster-list" && gotClient {
 				// the receive side let it in; the send side is the last line of defence (RFC 4456 8)
 				viol("export:route-with-local-cluster-id-reflected-to-client", "%s — and it was even reflected to route-reflector clients: %v", why, got)
+			}
+		}
+		if o.SoftInRan {
+			r.Outcome(wn + "import:must-not-be-used:" + cls + ":after-soft-reset-in")
+			if o.SoftInLocRib || len(o.SoftInSent) > 0 {
+				viol("import:"+cls+":route-used-after-soft-reset-in", "%s — refused on arrival, but after a soft reset (in) of the source the route is in the Loc-RIB=%v and was advertised to %v", why, o.SoftInLocRib, o.SoftInSent)
 			}
 		}
 		return
